@@ -71,6 +71,14 @@ PROPS['C14'] = {'module': 'bits',
     'technique': 'TLC exhaustive model check of the transcribed shift algorithms (min_pow2-driven fraction growth, magnitude-driven word growth, arithmetic right shift, clamp-or-wrap left shift) for all codes, counts 0..n_word+3 and 2-element arrays + replay on the real code + TLC trace validation to 32 bits',
     'level_text': 'For all codes of all formats with n_word<=W, n_frac in {0, n_word/2}, counts 0..n_word+3 and arrays of up to two codes TLC checks that expand mode is lossless (value scaled by exactly 2^+-n) and that trunc/keep mode keeps the format, shifts right arithmetically and shifts left exactly when representable, else clamps or wraps; every case is executed on the real code (scalars, arrays, 3 modes, both overflow settings) and judged by TLC incl. operand untouched; n_word<=32 with n_word+n<=62 is sampled.',
     'level_note': _AR_NOTE}
+PROPS['C16'] = {'module': 'misc',
+    'technique': 'TLC exhaustive model check (the six relations on exact dyadics form a consistent total order that agrees with cross-multiplied integers; uraw = two-complement image; floor) + replay of all code pairs of all small format pairs on the real code (Fxp-Fxp, Fxp-number both sides, scalars) + TLC trace validation of adjacent values across formats up to 24 bits and conversions for every code of 8-bit formats',
+    'level_text': 'For every pair of formats with n_word<=W (n_frac -1..n_word+1) TLC checks trichotomy and the derived relations on every code pair; every pair is compared on the real code with all six operators (arrays and scalars; Fxp against Fxp and against plain numbers on either side, incl. numbers between grid points) and TLC evaluates each boolean against the exact relation; get_val/astype(float)/float()/call, astype(int)/int() (floor), bool(), raw(), uraw() are judged for every code, for raw-built and value-built objects.',
+    'level_note': _AR_NOTE}
+PROPS['C17'] = {'module': 'misc',
+    'technique': 'TLC exhaustive model check of the affine wrapper (read(store(u*s+b)) and direction flip for negative scale; limits bracket) over formats x 10 modes x 32 scales x 8 biases + replay on the real code (scalars, arrays, 3 routes, inference) + TLC trace validation to 16 bits',
+    'level_text': 'TLC enumerates every (format n_word<=W, rounding, overflow, scale k/2^j with k in +-{1,3,5,7}, bias) and every quarter-LSB grid value u; the harness stores v = u*s + b (all intermediates exact doubles; the witness u*s+b = v is re-checked by TLC) and TLC judges code = Quantize(u), read = s*code*2^-f + b, flags as for the unscaled value, upper/lower/precision through the same affine map, and that inference sizes the transformed value.',
+    'level_note': _AR_NOTE + ' Quick tier executes a rotating quarter of the configurations (all of them are model-checked); thorough executes all.'}
 
 NOT_APPLICABLE = {}
 
@@ -124,11 +132,13 @@ def default_account(chk, obs):
                     if fo[i] or fu[i] or fi[i]:
                         v = row['v'][i]
                         seen.add((row.get('s'), row.get('w'), row.get('f'), row.get('r'), row.get('o'), tuple(v['m']), v['e']))
-        elif k in ('arith', 'div', 'arithc', 'unary', 'conv', 'bitwise', 'shift'):
+        elif k in ('arith', 'div', 'arithc', 'unary', 'conv', 'bitwise', 'shift', 'cmp'):
             cx = row.get('cx', row.get('cs', []))
             cy = row.get('cy', cx)
             if k == 'bitwise':
                 cy = [cy] * len(cx)
+            elif k == 'cmp' and not cy:
+                cy = cx
             elif k == 'shift':
                 cy = cx
             ev += len(cx)
@@ -138,6 +148,23 @@ def default_account(chk, obs):
                 ia, ib = unwint(a), unwint(b)
                 if ia in ex or ib in ey:
                     seen.add(key + (ia, ib))
+        elif k == 'scaled':
+            n = len(row.get('u', []))
+            ev += n
+            fo, fu, fi = row.get('fo', []), row.get('fu', []), row.get('fi', [])
+            if row.get('agg'):
+                if fo and (fo[0] or fu[0] or fi[0]):
+                    seen.add((k, row['s'], row['w'], row['f'], row['r'], row['o'], str(row['sc']), str(row['b']), 'agg'))
+            else:
+                for i in range(min(n, len(fo))):
+                    if fo[i] or fu[i] or fi[i]:
+                        seen.add((k, row['s'], row['w'], row['f'], row['r'], row['o'], str(row['sc']), str(row['b']), str(row['u'][i])))
+        elif k == 'numconv':
+            cs = [unwint(c) for c in row.get('c', [])]
+            ev += len(cs)
+            for c in cs:
+                if c < 0 or row['f'] < 0:
+                    seen.add((k, row['route'], row['s'], row['w'], row['f'], c))
         elif k in ('render', 'parse'):
             cs = [unwint(c) for c in row.get('c', [])]
             ev += len(cs)
